@@ -37,6 +37,9 @@ CLAIMED = {
     "C20": ("exploration", "differential property testing of conditional verification (native validity of the selected pair vs. circuit verdict over all branch-state combinations), dummy circuits/proofs for generated shapes, model-checked cyclic chains with embedded-data edits",
             "Generated inner circuit + its library-made dummy circuit share common data; for generated (condition, state of branch 0, state of branch 1) combinations the outer conditional verifier must accept exactly when the selected pair is natively valid, irrespective of the other branch; dummy proofs verify; cyclic chains (length 1-2 quick, up to 4 thorough) verify at every step, carry the circuit's verifier data and the reference hash chain, and every edit of the embedded data is detected and cannot be extended.",
             "Poseidon config; non-zk, lookup-free inner shapes (documented preconditions of dummy_circuit).", "§C20"),
+    "C07": ("exploration", "property-based testing of every built-in gate over generated parameterisations and rows: the gate's own generators fill the row, every generator-written wire is replaced (single, pairwise, Jacobian rank), all evaluators compared (extension, base batch incl. packed path, base one, in-circuit), constraint count and degree measured",
+            "For 15 gate types and 459 parameterisations (sweep) plus generated cases: honest rows satisfy all constraints; every one of the ~9.5k generator-written wires is shown pinned (three replacement values each); pairwise re-completion and Jacobian-rank checks go beyond single replacement; the four evaluators agree on arbitrary rows (batch sizes 1, 3, 32, 33; scalar and AVX-512), return num_constraints() values and stay within degree()*(n-1).",
+            "Input wires restricted by preconditions (Poseidon swap bit, exponent bits, access index) are not 'values the generators produce' and are outside the statement; lookup gates carry no gate constraints (C08).", "§C07"),
     "C08": ("fault_enumeration", "property-based testing of lookup circuits: generated tables and lookup multisets around the slot boundaries (positive), post-lookup witness overrides of pairs / table cells / multiplicities / padding with the real prover (negative)",
             "Generated circuits with 1-3 tables and lookup counts around the slot count prove, verify and output the table values; then one looked-up output, table cell, multiplicity or padding slot is overridden after the prover filled the lookup wires and the real prover is run (honest path, zero/scaled Z, perturbed quotient): no plain or compressed proof may verify; a non-member input must not yield an accepted proof.",
             "Tables up to a few rows' worth of 16-bit pairs; distinct table inputs and used tables as the API requires.", "§C08"),
